@@ -178,10 +178,11 @@ type replica struct {
 	dbs  map[string]dbm.DB
 	conf interface{}
 
-	ctl       *applyCtl
-	asmWrites int
-	snapBytes []byte // newest snapshot this replica holds (its own or an installed one)
-	curIdx    int
+	ctl          *applyCtl
+	asmWrites    int
+	snapBytes    []byte // newest snapshot this replica holds (its own or an installed one)
+	drainOnClose bool
+	curIdx       int
 }
 
 type memSink struct{ bytes.Buffer }
@@ -307,7 +308,22 @@ func (r *replica) release() {
 	})
 	mbt.Catch(func() {
 		if r.cs != nil {
+			// raft.Shutdown waits for its FSM goroutine; an Apply in flight blocks on appliedCh, which run() stops
+			// reading once the raft state is Shutdown: take the hand-offs while shutting down (live cluster only)
+			stop := make(chan struct{})
+			if r.drainOnClose {
+				go func(ch <-chan *gtypes.Block) {
+					for {
+						select {
+						case <-ch:
+						case <-stop:
+							return
+						}
+					}
+				}(r.fsm.AppliedCh())
+			}
 			r.cs.VerifClose()
+			close(stop)
 		}
 	})
 	mbt.Catch(func() {
